@@ -515,6 +515,8 @@ def input_values(check: Check) -> None:
     # shapes: along every path for (number of dimensions, single input?), the matrix that is distributed has the right shape
     from ..sym import PathResolver
 
+    _shape_env: dict = {}
+
     def shape_of(t: Term, nd: int) -> tuple:
         """Symbolic shape of a term: entries are 1, "n" (number of input variables), "k" (vector length), "r"/"c" (matrix)."""
         if t == ("param", vals):
@@ -558,6 +560,11 @@ def input_values(check: Check) -> None:
                     raise AnalysisError(f"Engine.input_values.setter: index `{show(x)}` not modelled in the shape interpretation")
             return tuple(out + base)
         if t[0] == "ifexp":
+            from ..guards import UNKNOWN
+
+            c = RoleEval(r, classify).eval_term(t[1], _shape_env)
+            if c is not UNKNOWN:
+                return shape_of(t[2] if c else t[3], nd)
             a, b = shape_of(t[2], nd), shape_of(t[3], nd)
             if a == b:
                 return a
@@ -581,6 +588,8 @@ def input_values(check: Check) -> None:
     for (nd, single), w in want.items():
         ev = RoleEval(r, classify)
         env = {"ndim": nd, "has_inputs": True, "bad_columns": False, "single_input": single}
+        _shape_env.clear()
+        _shape_env.update(env)
         shapes = set()
         for pa in paths(cfg, first, ev, env, set()):
             if n not in pa:
